@@ -38,7 +38,8 @@ def texts(rng, n):
         elif r < 0.8:
             t = rng.choice(["lyric ", "section "]) + "".join(rng.choice(gen.TEXT_ATOMS) for _ in range(rng.randint(0, 4)))
         else:
-            t = rng.choice(["la", "Intro 1", "phrase_start", "lyric", "section", "lyricx", "lyric\tx", "sectionIntro", " lyric x",
+            t = rng.choice(["end", "end", "[end]", "coda", "solo", "soloend", "ENABLE_CHART_DYNAMICS", "music_start", "music_end",   # names games give a meaning
+                            "la", "Intro 1", "phrase_start", "lyric", "section", "lyricx", "lyric\tx", "sectionIntro", " lyric x",
                             "Lyric x", "Section 2 starts", "LYRIC video on", "SECTION", "ſection x", "lyric  two", "section \"A\"", "lyric \"", "lyric a\" ", "\"", "", " "])
         out.append(t.replace("\n", ""))
     return out
@@ -73,8 +74,12 @@ def sections(ctx, out):
     rng = ctx.sub("sections")
     prof = gen.Profile(max_tracks=0, max_events=14, garbage=0.1, unknown_sections=0.0, meta_fields=0.0, tricky_text=0.6, max_tempo=2)
     cases = []
-    for _ in range(ctx.n(150, 15_000)):
+    for k_ in range(ctx.n(150, 15_000)):
         src = gen.rand_src(rng, prof)
+        if k_ % 8 == 0 and len(src.gevents) >= 2:
+            # a name some game gives a meaning to, as the whole text of an event in the middle of the section: one more text event
+            j_ = rng.randint(1, len(src.gevents) - 1)
+            src.gevents.insert(j_, (src.gevents[j_][0], rng.choice(["text", "text", "section", "lyric"]), rng.choice(["end", "end", "[end]", "coda", "music_end"])))
         cases.append((src, gen.render(src, rng, prof)))
     # any line order: on a single-tempo chart every order of the events lines is accepted, and each list keeps file order
     for _ in range(ctx.n(60, 6000)):
